@@ -90,7 +90,7 @@ func verifC09Backoff(events int) {
 		Period:               0,
 		Duration:             0,
 		Count:                backoffCount,
-		ResponseSizeEstimate: 1,
+		ResponseSizeEstimate: 12,
 		IPv4Count:            num,
 		IPv4Interval:         time.Duration(ivl),
 		IPv4SubnetKeyLen:     keyLen,
@@ -150,6 +150,67 @@ func verifC09Backoff(events int) {
 			} else {
 				verifReach("passed")
 			}
+		}
+	}
+	verifReach("done")
+}
+
+
+// VerifC09Responses: a counted response weighs as many events as it has size
+// estimates, and every one of them counts towards the limit and towards back-off.
+//
+//verif:harness name=H09c-responses tier=quick,thorough bounds="one client; count 1..2, back-off count 1..3; sequence of 3 steps from {query, counted response of 2 or 3 size estimates}; interval and clock readings symbolic" reach=done,dropped,passed,response-counted maxpaths=100000
+//verif:assume request/hit counters do not expire within the explored horizon; clock readings positive, non-decreasing, below 2^62
+func VerifC09Responses() {
+	ip := netip.MustParseAddr("192.0.2.77")
+	num := uint(1 + verifChoice(2))
+	backoffCount := uint(1 + verifChoice(3))
+	ivl := nondetI64()
+	verifAssume(ivl > 0)
+	verifAssume(ivl < 1<<62)
+	l := NewBackoff(&BackoffConfig{
+		Allowlist:            NewDynamicAllowlist(nil, nil),
+		Count:                backoffCount,
+		ResponseSizeEstimate: 12,
+		IPv4Count:            num,
+		IPv4Interval:         time.Duration(ivl),
+		IPv4SubnetKeyLen:     24,
+		IPv6Count:            num,
+		IPv6Interval:         time.Duration(ivl),
+		IPv6SubnetKeyLen:     48,
+	})
+	var ref verifRefSubnet
+	ctx := context.Background()
+	var last int64
+	req := &dns.Msg{Question: []dns.Question{{Name: "example.org.", Qtype: dns.TypeA, Qclass: dns.ClassINET}}}
+	for j := 0; j < 3; j++ {
+		now := nondetI64()
+		verifAssume(now > 0)
+		verifAssume(now < 1<<62)
+		verifAssume(now >= last)
+		last = now
+		verifSetClock(now)
+		if verifChoice(2) == 1 {
+			resp := (&dns.Msg{}).SetReply(req)
+			if verifChoice(2) == 1 {
+				resp.Answer = []dns.RR{&dns.A{Hdr: dns.RR_Header{Name: "example.org.", Rrtype: dns.TypeA, Class: dns.ClassINET, Ttl: 60}, A: []byte{192, 0, 2, 1}}}
+			}
+			k := resp.Len() / 12
+			l.CountResponses(ctx, resp, ip)
+			for e := 0; e < k; e++ {
+				_ = ref.event(now, num, ivl, backoffCount)
+			}
+			verifReach("response-counted")
+			continue
+		}
+		drop, _, err := l.IsRateLimited(ctx, req, ip)
+		verifAssert("no-error", err == nil)
+		want := ref.event(now, num, ivl, backoffCount)
+		verifAssert("drop-equals-reference-after-counted-responses", drop == want)
+		if drop {
+			verifReach("dropped")
+		} else {
+			verifReach("passed")
 		}
 	}
 	verifReach("done")
